@@ -20,7 +20,10 @@ TECHNIQUE = (
     "per connection with several tester connections open at once / one after the other on one TCPUDSServerTransport / UnixUDSServerTransport object; "
     "and on real unix/loopback sockets with the server transport started through its run() and the testers opened with connect(); reads are given up "
     "in four ways (timeout= parameter, asyncio.wait_for / asyncio.timeout around read(), cancel() of the reading task) at every prefix of a partial line; "
-    "written-then-closed senders on a real AF_UNIX stream socket pair under the virtual clock with a peer that reads late / slowly (flow control engaged)"
+    "written-then-closed senders on a real AF_UNIX stream socket pair under the virtual clock with a peer that reads late / slowly (flow control engaged); "
+    "polling reads (timeout 0 / over at once in all four ways, reading task cancelled after 0..3 loop iterations) while complete lines wait in the stream buffer; "
+    "on the same kind of socket pair: senders that go on writing (one or two tasks on one transport) after write() gave up on its timeout on a congested connection, "
+    "and the production server loop with testers that pipeline a burst and collect more reply data than the buffers hold only later"
 )
 LEVEL_TEXT = (
     "Exploration with exhaustive sub-spaces: message sequences (lengths 1..4095, all byte values, bursts up to 200 messages) are "
@@ -36,7 +39,14 @@ LEVEL_TEXT = (
     "the caller also gives a suspended read() up from outside (asyncio.wait_for, asyncio.timeout, task.cancel()), and the following reads must deliver every "
     "message. Last use of an object: 1-2 senders write a burst (few maximum-size messages, hundreds of small ones, mixed) over a real socket pair with small or "
     "default kernel buffers to a peer that starts reading 0..40 virtual seconds late and reads in small chunks, then call close(); every message whose write() "
-    "returned must reach the peer, in order, before the stream ends. Held = held on those runs."
+    "returned must reach the peer, in order, before the stream ends. Round 7: (a) polling reads - for every short base sequence, with one line or the whole burst (plus "
+    "possibly a partial next line) already buffered, every read is preceded by a read the caller does not wait for (read(timeout=0), timeout 1e-9, outer wait_for / "
+    "asyncio.timeout of 0, reading task cancelled after 0..3 loop iterations); half of the generations in the groups poll the same way before every ordinary read; a poll "
+    "returns the next message or nothing, and nothing may get lost; (b) congested senders - >= 160 kB of distinct messages (lengths around 1023/1024/2049/4095) written by one "
+    "or two tasks on one transport to a peer that does not read for 1.5..40 virtual seconds, write timeouts 0.05..1 s (or none), the tasks go on with their next message after a "
+    "write() gave up, then close(); every complete line the peer reads must be one of the written messages, each task's messages in its order, and every message whose write() "
+    "returned; (c) replies collected late - 1-2 tester connections on one server object send a whole burst (short requests with maximum-size replies, maximum-size requests, many "
+    "small ones) and read the replies 0..400 virtual seconds later in chunks; every request must reach the ECU and every reply come back in order. Held = held on those runs."
 )
 LEVEL_NOTE = ("Trusted: asyncio.StreamReader (real) fed by the harness, MemWriter stand-in, virtual clock; in the served family the kernel's sockets and the real "
               "clock (a reply counts as missing after 10 real seconds); in the written-then-closed family asyncio's selector transport "
@@ -45,14 +55,21 @@ RULE = (
     "cases = (transport kind, message sequence, segmentation plan, timeout placement, EOF placement); non-trivial = the stream was split "
     "inside a line, coalesced several lines into one segment, timed out mid-line or ended mid-line; group cases = (kinds, per object: generations of "
     "(messages, segmentation, pace, read timeout / start delay, way of giving a read up, ending)); served cases = (kind, per tester chain: scripts); "
-    "written-then-closed cases = per sender (kind, message seed + profile, socket buffer size, peer stall / chunk / gap, write timeout); distinct = distinct case tuples"
+    "written-then-closed cases = per sender (kind, message seed + profile, socket buffer size, peer stall / chunk / gap, write timeout); polling cases = (kind, messages, lines "
+    "buffered, bytes of a partial next line, way of polling); congested-writes cases = per sender (kind, message seed, socket buffer size, peer stall / chunk / gap, write timeout "
+    "per writing task); replies-collected-late cases = (server kind, responder delays, per connection: request seed + profile, socket buffer size, tester stall / chunk / gap); "
+    "distinct = distinct case tuples"
 )
 ASSUMPTIONS = ["messages have length >= 1 (an empty message is indistinguishable from EOF by construction of the line protocol)",
                "the peer encodes like gallia's own counterpart: lower-case hex digits + LF",
                "'delivered to the peer' is demanded for every message whose write() returned normally before the sender's orderly close(), however late or slowly "
                "the peer reads (the statement sets no bound on the peer's pace); a message whose write() ran into its timeout= may or may not arrive",
                "a read given up by its caller (outer asyncio.wait_for / asyncio.timeout, cancel() of the reading task) counts as 'a read that times out': it returned "
-               "no message, so it must not have consumed one"]
+               "no message, so it must not have consumed one",
+               "a polling read (timeout 0 or over at once) is free to return the buffered message or nothing; only 'returned nothing but consumed a line' is judged",
+               "several tasks may have a write() suspended on one transport at the same time; only each task's own order is demanded of the lines that arrive, not an order "
+               "between the tasks",
+               "in the server loop 'every reply comes back' is demanded however late the tester collects the replies (the statement sets no bound on the peer's pace)"]
 EXHAUSTIVE = {"quick": False, "thorough": False}
 EXHAUSTIVE_NOTE = "exhaustive sub-spaces: every single split point, every timeout prefix and every EOF offset of the short base sequences"
 
@@ -81,7 +98,16 @@ def required_reach(tier: str) -> dict[str, int]:
             # last use of an object: write ... write, close() with a peer that is behind (real socket pair, virtual clock)
             "flush.senders": 300, "flush.kind.tcp-lines": 100, "flush.kind.unix-lines": 100, "flush.buffered-at-close": 100, "flush.write-waited-for-peer": 30,
             "flush.write-timeout": 10, "flush.max-size-messages": 50, "flush.peer-behind.0.1-1s": 10, "flush.peer-behind.1-5s": 20, "flush.peer-behind.>5s": 20,
-            "flush.two-senders": 50}
+            "flush.two-senders": 50,
+            # round 7: polling reads while a complete line is buffered (read(timeout=0) and friends, reading task cancelled after 0..3 loop iterations)
+            "poll.param.line-buffered": 2000, "poll.wait_for.line-buffered": 2000, "poll.timeout-cm.line-buffered": 3000, "poll.cancel.line-buffered": 5000,
+            "poll.returned-message": 5000, "poll.returned-nothing": 2000, "companions.poll.line-due": 10000,
+            # round 7: further use of a transport whose connection is congested (writes after a write() gave up, two writing tasks), real socket pair
+            "congested.senders": 300, "congested.kind.tcp-lines": 100, "congested.kind.unix-lines": 100, "congested.write-after-a-write-gave-up": 3000,
+            "congested.two-writing-tasks": 80, "congested.write-while-another-is-suspended": 300,
+            # round 7: the server loop with a tester that pipelines a burst and collects the replies late (more reply data than the buffers hold)
+            "server.late.cases": 300, "server.late.kind.tcp-lines": 100, "server.late.kind.unix-lines": 100, "server.late.two-connections": 100,
+            "server.late.replies-backed-up-when-tester-reads": 150, "server.late.backed-up-for.1-5s": 40, "server.late.backed-up-for.>5s": 60}
 
 
 # how a suspended read() ends without a message: by its own timeout= parameter, or given up by the caller from outside
@@ -112,6 +138,80 @@ async def read_giving_up(tr: Any, how: str, after: float, inner: float | None = 
         if not done and t.cancelled():
             raise TimeoutError from None
         raise
+
+
+# round 7: polling reads - the caller does not wait for a message at all: timeout 0 (or one that is over at once) in each of the four ways; for the
+# cancelled reading task the measure is not time but the number of loop iterations the task is given before its owner cancels it
+POLLS: tuple[tuple[str, Any, float | None], ...] = (
+    ("param", 0, None), ("param", 1e-9, None), ("wait_for", 0, None), ("wait_for", 1e-9, 30.0), ("timeout-cm", 0, None), ("timeout-cm", 0, 30.0),
+    ("timeout-cm", 1e-9, None), ("cancel", 0, None), ("cancel", 1, None), ("cancel", 1, 30.0), ("cancel", 2, None), ("cancel", 3, 30.0))
+
+
+async def poll_read(tr: Any, how: str, arg: Any, inner: float | None = None) -> bytes:
+    """one read() the caller does not wait for; returns the message or raises TimeoutError (= no message, whatever the way)"""
+    if how != "cancel":
+        return await read_giving_up(tr, how, arg, inner)
+    t = asyncio.ensure_future(tr.read(timeout=inner))
+    try:
+        for _ in range(arg):
+            await asyncio.sleep(0)
+    except BaseException:
+        t.cancel()
+        raise
+    gave_up = not t.done() and t.cancel()
+    try:
+        return await t  # type: ignore[no-any-return]
+    except asyncio.CancelledError:
+        if gave_up and t.cancelled():
+            raise TimeoutError from None
+        raise
+
+
+async def client_poll_case(kind: str, msgs: list[bytes], upto: int, extra: int, poll: tuple[str, Any, float | None]) -> dict[str, Any]:
+    """the first `upto` lines (and `extra` bytes of the next one) are in the stream buffer already (coalesced burst); the caller works them off with a
+    polling read before every ordinary read; then the rest arrives and is read in the ordinary way"""
+    reader = memstream.new_reader()
+    tr = make_transport(kind, reader, memstream.MemWriter())
+    stream = encode(msgs)
+    lines = [hexlify(m) + b"\n" for m in msgs]
+    first = len(b"".join(lines[:upto])) + extra
+    reader.feed_data(stream[:first])
+    got: list[Any] = []
+    out = {"got": got, "polls": 0, "poll_returned": 0, "poll_timed_out": 0}
+    broken = False
+    while len(got) < upto and not broken:
+        out["polls"] += 1
+        try:
+            got.append(await poll_read(tr, *poll))
+            out["poll_returned"] += 1
+            continue
+        except TimeoutError:
+            out["poll_timed_out"] += 1
+        except Exception as e:
+            got.append(("exc", type(e).__name__))
+            broken = True
+            break
+        try:
+            got.append(await tr.read(timeout=1.0))  # a complete line is in the buffer
+        except TimeoutError:
+            got.append(("timeout", "ordinary read with a complete line due"))
+            broken = True
+        except Exception as e:
+            got.append(("exc", type(e).__name__))
+            broken = True
+    if stream[first:]:
+        reader.feed_data(stream[first:])
+    reader.feed_eof()
+    for _ in range(len(msgs) + 2):
+        try:
+            m = await tr.read(timeout=1.0)
+        except Exception as e:
+            got.append(("exc", type(e).__name__))
+            break
+        got.append(m)
+        if m == b"":
+            break
+    return out
 
 
 def gen_messages(rng: random.Random, short: bool) -> list[bytes]:
@@ -351,8 +451,27 @@ async def client_slot(kind: str, gens: list[dict[str, Any]], log: list[dict[str,
         fed = [0]
         feeder = asyncio.ensure_future(feed_counting(reader, stream, [c for c in g["cuts"] if c < len(stream)], g["gap"], g["end"] != "abandon", fed))
         got: list[Any] = []
-        consumed = timeouts = midline = idle = 0
+        consumed = timeouts = midline = idle = polls = polls_line = 0
+        poll = g.get("poll")
         while len(got) < len(g["msgs"]) + 3 and timeouts < 4000:
+            if poll is not None:
+                # round 7: a polling read (not waited for) before every ordinary one; it returns a message or nothing
+                polls += 1
+                line_due = b"\n" in stream[consumed : fed[0]]
+                try:
+                    m = await poll_read(tr, *poll)
+                except TimeoutError:
+                    polls_line += line_due
+                except Exception as e:
+                    got.append(("exc", type(e).__name__))
+                    break
+                else:
+                    polls_line += line_due
+                    got.append(m)
+                    if m == b"":
+                        break
+                    consumed += 2 * len(m) + 1
+                    continue
             try:
                 m = await read_giving_up(tr, g.get("giveup", "param"), g["rt"], g.get("inner"))
             except TimeoutError:
@@ -380,7 +499,8 @@ async def client_slot(kind: str, gens: list[dict[str, Any]], log: list[dict[str,
             await tr.close()
         except Exception as e:
             close_exc = type(e).__name__
-        log.append({"got": got, "timeouts": timeouts, "midline_timeouts": midline, "close_exc": close_exc, "pending_at_end": len(stream) - consumed})
+        log.append({"got": got, "timeouts": timeouts, "midline_timeouts": midline, "close_exc": close_exc, "pending_at_end": len(stream) - consumed,
+                    "polls": polls, "polls_line_due": polls_line})
 
 
 async def client_group_case(slots: list[dict[str, Any]]) -> list[list[dict[str, Any]]]:
@@ -493,7 +613,242 @@ async def flush_group_case(slots: list[dict[str, Any]]) -> list[dict[str, Any]]:
     return list(await asyncio.gather(*(flush_slot(sl) for sl in slots)))
 
 
-def make_responder(kind: str, uri: str, delays: list[Any]) -> Any:
+# ------------------------------------------------------------------------------------------------------------------------------
+# round 7: an object that goes on being used while the connection is congested (real AF_UNIX stream socket pair, virtual clock)
+#  - sender: write() gives up on its timeout= (or is still suspended) and further write()s follow on the same transport, from one or two tasks
+#  - server loop: a tester pipelines a burst whose replies exceed what the buffers hold and collects the replies only later
+
+
+def congesting_messages(mseed: int) -> list[bytes]:
+    """more data than any buffer on the way holds (>= 160 kB of lines), lengths around the interesting sizes; all different, so that every line the peer
+    receives can be attributed to the write() that produced it"""
+    rng = random.Random(f"C19-congesting/{mseed}")
+    out: list[bytes] = []
+    seen: set[bytes] = set()
+    total = 0
+    while total < 160_000:
+        m = rng.randbytes(rng.choice([4095, 4095, 4094, 3000, 2049, 1500, 1025, 1024, 1023, 300, 8]))
+        if m in seen:
+            continue
+        seen.add(m)
+        out.append(m)
+        total += 2 * len(m) + 1
+    return out
+
+
+def gen_congested_slot(rng: random.Random, kind: str) -> dict[str, Any]:
+    writers = rng.choice([1, 1, 2])
+    return {"kind": kind, "mseed": rng.randrange(1 << 30), "sndbuf": rng.choice([2048, 4096, 16384]), "stall": rng.choice([1.5, 3.0, 8.0, 40.0]),
+            "chunk": rng.choice([512, 4096, 65536]), "gap": rng.choice([0, 0.001, 0.02]),
+            # timeout= of the write()s of each writing task (None: that task waits as long as it takes)
+            "wts": [rng.choice([0.05, 0.3, 1.0] if w == 0 and writers == 1 else [None, 0.05, 0.3, 1.0]) for w in range(writers)]}
+
+
+async def congested_slot(sl: dict[str, Any]) -> dict[str, Any]:
+    """the peer (harness, raw other end of the pair) does not read for `stall` seconds; the sender's tasks write their share of the messages one after the
+    other on ONE transport, each write() with the task's timeout=, and go on with the next message when a write() gave up; then close()"""
+    import socket
+
+    msgs = congesting_messages(sl["mseed"])
+    nw = len(sl["wts"])
+    total = sum(2 * len(m) + 1 for m in msgs)
+    chunk = max(sl["chunk"], total // 150)
+    a, b = socket.socketpair()
+    res: dict[str, Any] = {"returned": [], "gave_up": [], "raised": [], "write_after_give_up": 0, "two_suspended": 0, "close_exc": None, "end": None, "got": b""}
+    w = None
+    try:
+        a.setblocking(False)
+        b.setblocking(False)
+        a.setsockopt(socket.SOL_SOCKET, socket.SO_SNDBUF, sl["sndbuf"])
+        b.setsockopt(socket.SOL_SOCKET, socket.SO_RCVBUF, sl["sndbuf"])
+        if sl["kind"] == "tcp-lines":
+            r, w = await asyncio.open_connection(sock=a)
+        else:
+            r, w = await asyncio.open_unix_connection(sock=a)
+        tr = make_transport(sl["kind"], r, w)
+        loop = asyncio.get_running_loop()
+        got = bytearray()
+
+        async def peer() -> str:
+            await asyncio.sleep(sl["stall"])
+            while True:
+                try:
+                    d = await loop.sock_recv(b, chunk)
+                except OSError as e:
+                    return type(e).__name__
+                if not d:
+                    return "eof"
+                got.extend(d)
+                await asyncio.sleep(sl["gap"])
+
+        inflight = [0]
+
+        async def writer_task(wi: int) -> None:
+            gave_up_before = False
+            for i in range(wi, len(msgs), nw):
+                if gave_up_before:
+                    res["write_after_give_up"] += 1
+                if inflight[0]:
+                    res["two_suspended"] += 1
+                inflight[0] += 1
+                try:
+                    await tr.write(msgs[i], timeout=sl["wts"][wi])
+                except TimeoutError:
+                    res["gave_up"].append(i)
+                    gave_up_before = True
+                except Exception as e:
+                    res["raised"].append((i, type(e).__name__))
+                    return
+                else:
+                    res["returned"].append(i)
+                finally:
+                    inflight[0] -= 1
+
+        pt = asyncio.ensure_future(peer())
+        await asyncio.gather(*(writer_task(wi) for wi in range(nw)))
+        try:
+            await tr.close()
+        except Exception as e:
+            res["close_exc"] = type(e).__name__
+        try:
+            res["end"] = await asyncio.wait_for(pt, 7200)
+        except TimeoutError:
+            res["end"] = "silent"
+        res["got"] = bytes(got)
+        return res
+    finally:
+        b.close()
+        try:
+            if w is None:
+                a.close()
+            elif not w.transport.is_closing():
+                w.transport.abort()
+        except Exception:
+            pass
+
+
+async def congested_group_case(slots: list[dict[str, Any]]) -> list[dict[str, Any]]:
+    return list(await asyncio.gather(*(congested_slot(sl) for sl in slots)))
+
+
+def reply_amplified(pdu: bytes) -> bytes | None:
+    """a maximum-size reply to a short request (think of ReadDataByIdentifier); a function of the request alone"""
+    if pdu[0] & 1:
+        return None
+    return bytes([(pdu[0] + 0x40) & 0xFF]) + (pdu[::-1] * (4094 // len(pdu) + 1))[:4094]
+
+
+LATE_PROFILES = ("amplified", "amplified", "big-requests", "small")
+
+
+def late_requests(mseed: int, profile: str) -> list[bytes]:
+    rng = random.Random(f"C19-late/{mseed}/{profile}")
+    if profile == "amplified":
+        return [rng.randbytes(rng.randint(1, 12)) for _ in range(rng.randint(40, 90))]
+    if profile == "big-requests":
+        return [rng.randbytes(rng.choice([4095, 4094, 3000, 2049])) for _ in range(rng.randint(30, 50))]
+    return [rng.randbytes(rng.randint(1, 6)) for _ in range(rng.randint(50, 400))]
+
+
+def gen_late_conn(rng: random.Random) -> dict[str, Any]:
+    return {"mseed": rng.randrange(1 << 30), "profile": rng.choice(LATE_PROFILES), "sndbuf": rng.choice([None, 2048, 4096, 16384]),
+            "stall": rng.choice([0, 0.3, 1.5, 3.0, 8.0, 40.0, 400.0]),  # the tester looks at the replies this long after it started to send its burst
+            "chunk": rng.choice([512, 4096, 65536]), "gap": rng.choice([0, 0.001, 0.02])}
+
+
+async def late_conn(srv: Any, name: str, sl: dict[str, Any]) -> dict[str, Any]:
+    """one tester connection (harness, raw end of the pair) to the production server loop (stream pair on the other end): the whole burst is sent at once
+    (in the background, the kernel takes what it takes), the replies are collected from `stall` on, in chunks; then the tester ends its sending direction"""
+    import socket
+
+    reqs = late_requests(sl["mseed"], sl["profile"])
+    reply = reply_amplified if sl["profile"] == "amplified" else reply_for
+    want = b"".join(hexlify(x) + b"\n" for x in map(reply, reqs) if x is not None)
+    chunk = max(sl["chunk"], len(want) // 150)
+    a, b = socket.socketpair()
+    res: dict[str, Any] = {"backed_up": 0, "end": None, "got": b"", "loop_ended": None, "exc": None, "t_done": None}
+    w = None
+    try:
+        a.setblocking(False)
+        b.setblocking(False)
+        if sl["sndbuf"] is not None:
+            a.setsockopt(socket.SOL_SOCKET, socket.SO_SNDBUF, sl["sndbuf"])
+            b.setsockopt(socket.SOL_SOCKET, socket.SO_RCVBUF, sl["sndbuf"])
+        if srv.kind == "tcp-lines":
+            r, w = await asyncio.open_connection(sock=a)
+        else:
+            r, w = await asyncio.open_unix_connection(sock=a)
+        loop = asyncio.get_running_loop()
+        task = asyncio.ensure_future(srv.handle_client(r, w))
+        task.set_name(name)
+        sender = asyncio.ensure_future(loop.sock_sendall(b, encode(reqs)))
+        t0 = loop.time()
+        await asyncio.sleep(sl["stall"])
+        res["backed_up"] = w.transport.get_write_buffer_size()
+        res["loop_ended_before_tester_read"] = task.done()
+        got = bytearray()
+        end = "complete"
+        while len(got) < len(want):
+            try:
+                d = await asyncio.wait_for(loop.sock_recv(b, chunk), 3600)
+            except TimeoutError:
+                end = "silent"  # one virtual hour without a byte while replies are due
+                break
+            except OSError as e:
+                end = type(e).__name__
+                break
+            if not d:
+                end = "eof"
+                break
+            got.extend(d)
+            await asyncio.sleep(sl["gap"])
+        res["t_done"] = loop.time() - t0
+        if not sender.done():
+            sender.cancel()  # the other side has stopped reading
+        await asyncio.gather(sender, return_exceptions=True)
+        try:
+            b.shutdown(socket.SHUT_WR)
+        except OSError:
+            pass
+        try:
+            await asyncio.wait_for(task, 3600)
+            res["loop_ended"] = True
+        except TimeoutError:
+            res["loop_ended"] = False
+        except Exception as e:
+            res["exc"] = type(e).__name__
+        # whatever else was written to this connection
+        for _ in range(400):
+            try:
+                d = await asyncio.wait_for(loop.sock_recv(b, 65536), 5)
+            except (TimeoutError, OSError):
+                break
+            if not d:
+                break
+            got.extend(d)
+        res["end"] = end
+        res["got"] = bytes(got)
+        res["seen"] = srv.seen.get(name, [])
+        return res
+    finally:
+        b.close()
+        try:
+            if w is None:
+                a.close()
+            elif not w.transport.is_closing():
+                w.transport.abort()
+        except Exception:
+            pass
+
+
+async def late_server_case(kind: str, conns: list[dict[str, Any]], delays: list[Any]) -> list[dict[str, Any]]:
+    srv = make_responder(kind, "tcp-lines://127.0.0.1:1" if kind == "tcp-lines" else "unix-lines:///x.sock", delays,
+                         lambda pdu: reply_amplified(pdu) if asyncio.current_task().get_name().endswith("/amplified") else reply_for(pdu))  # type: ignore[union-attr]
+    srv.kind = kind
+    return list(await asyncio.gather(*(late_conn(srv, f"late-{i}/{sl['profile']}", sl) for i, sl in enumerate(conns))))
+
+
+def make_responder(kind: str, uri: str, delays: list[Any], reply: Any = None) -> Any:
     """the production server transport with a deterministic responder; handle_client is the production loop, the wrapper only counts open
     connections and closes the harness' end afterwards"""
     from gallia.services.uds.server import TCPUDSServerTransport, UnixUDSServerTransport
@@ -522,7 +877,7 @@ def make_responder(kind: str, uri: str, delays: list[Any]) -> Any:
                 await asyncio.sleep(0)
             elif d:
                 await asyncio.sleep(d)
-            return reply_for(bytes(request_pdu)), 0.0
+            return (reply or reply_for)(bytes(request_pdu)), 0.0
 
         async def handle_client(self, reader: Any, writer: Any) -> None:
             self.connections += 1
@@ -830,6 +1185,29 @@ class Mon:
                 ctx.violation(f"client/read/given-up-read-consumes-data/{how}/{where}", "after the caller gave a suspended read() up from outside (outer timeout / cancelled reading "
                               "task) the next reads do not deliver the complete messages", {**w, "got": got[:8]})
 
+    def check_poll(self, kind: str, msgs: list[bytes], upto: int, extra: int, poll: tuple[str, Any, float | None]) -> None:
+        """polling reads on a coalesced burst: each one returns the next message or nothing; nothing may get lost"""
+        ctx = self.ctx
+        poll = (poll[0], poll[1], poll[2])
+        w = {"kind": kind, "messages": msgs, "poll_case": {"lines_buffered": upto, "extra_bytes": extra, "poll": list(poll)}}
+        ctx.case((kind, "poll", tuple(msgs), upto, extra, poll))
+        out = self.run(client_poll_case(kind, msgs, upto, extra, poll), w, f"client/{kind}/polling-read")
+        if out is None:
+            return
+        ctx.reach(f"poll.{poll[0]}.line-buffered", out["polls"])
+        ctx.reach("poll.returned-message", out["poll_returned"])
+        ctx.reach("poll.returned-nothing", out["poll_timed_out"])
+        ctx.reach("client.reads", len(out["got"]) + out["poll_timed_out"])
+        got = out["got"]
+        delivered = [g for g in got if isinstance(g, bytes) and g != b""]
+        if delivered != msgs or any(not isinstance(g, bytes) for g in got):
+            how = "lost" if len(delivered) < len(msgs) else "reordered-or-altered"
+            ctx.violation(f"client/read/polling-read-consumes-data/{poll[0]}/{how}", "a complete line was in the stream buffer and the caller polled (read with timeout 0 / a timeout over at "
+                          "once / reading task cancelled after a few loop iterations): a read that returned no message consumed one - the following reads do not deliver every message",
+                          {**w, "got": got[:8], "polls_returned_message": out["poll_returned"], "polls_returned_nothing": out["poll_timed_out"]})
+        elif got[len(msgs) :][:1] != [b""]:
+            ctx.violation("client/read/eof-not-signalled", "end of stream at a message boundary is not reported as the explicit EOF result", {**w, "got": got[:8]})
+
     def check_connect_path(self, kind: str, msgs: list[bytes]) -> None:
         ctx = self.ctx
         ctx.case((kind, "connect-path", hash(tuple(msgs))), nontrivial=True)
@@ -917,6 +1295,10 @@ class Mon:
                 if way != "param":
                     ctx.reach(f"companions.giveup.{way}.on-partial-line", out["midline_timeouts"])
                     role += f"/read-given-up-by-{way}"
+                if g.get("poll") is not None:
+                    ctx.reach("companions.poll.reads", out["polls"])
+                    ctx.reach("companions.poll.line-due", out["polls_line_due"])
+                    role += f"/polling-reads-by-{g['poll'][0]}"
                 if gi > 0:
                     ctx.reach("companions.successor")
                     prev = s["gens"][gi - 1]
@@ -997,6 +1379,89 @@ class Mon:
                 continue
             behind = next((t for n, t in out["marks"] if n >= len(want)), out["t_close"]) - out["t_close"]
             ctx.reach("flush.peer-behind." + ("<0.1s" if behind < 0.1 else "0.1-1s" if behind < 1 else "1-5s" if behind < 5 else ">5s"))
+
+    def check_congested(self, slots: list[dict[str, Any]]) -> None:
+        """further writes on a congested connection (after a write() gave up on its timeout, or while another task's write() is suspended): whatever the peer
+        reads are complete messages that were passed to write(), each task's messages in the order of its write()s, and every message whose write() returned"""
+        ctx = self.ctx
+        w = {"family": "congested-writes", "senders": slots}
+        ctx.case(("congested-writes", h(slots)), nontrivial=True)
+        res = self.run(congested_group_case(slots), w, "client/congested-writes")
+        if res is None:
+            return
+        for si, (sl, out) in enumerate(zip(slots, res)):
+            msgs = congesting_messages(sl["mseed"])
+            nw = len(sl["wts"])
+            ctx.reach("congested.senders")
+            ctx.reach(f"congested.kind.{sl['kind']}")
+            ctx.reach("client.writes", len(out["returned"]))
+            ctx.reach("congested.write-gave-up", len(out["gave_up"]))
+            ctx.reach("congested.write-after-a-write-gave-up", out["write_after_give_up"])
+            if nw > 1:
+                ctx.reach("congested.two-writing-tasks")
+                ctx.reach("congested.write-while-another-is-suspended", out["two_suspended"])
+            ctx.reach(f"congested.end.{out['end']}")
+            lines = out["got"].split(b"\n")[:-1]
+            index = {bytes(hexlify(m)): i for i, m in enumerate(msgs)}
+            arrived = [index.get(bytes(l)) for l in lines]
+            role = f"{'one-writing-task' if nw == 1 else 'two-writing-tasks'}/{'after-write-timeout' if out['gave_up'] else 'no-write-timeout'}"
+            w2 = {**w, "sender": si, "messages": f"{len(msgs)} messages, lengths {[len(m) for m in msgs][:12]}", "writes_returned": len(out["returned"]),
+                  "writes_gave_up": out["gave_up"][:20], "close_exc": out["close_exc"], "peer_saw": out["end"], "peer_got_complete_lines": len(lines)}
+            if out["raised"]:
+                ctx.violation(f"client/congested-writes/write-raises/{role}", "write() raised although the peer had its end open and was going to read", {**w2, "raised": out["raised"][:5]})
+                continue
+            if None in arrived:
+                k = arrived.index(None)
+                ctx.violation(f"client/congested-writes/line-is-no-written-message/{role}", "the peer received a complete line that is none of the messages passed to write() "
+                              "(pieces of different lines glued together)", {**w2, "line_no": k, "line_len": len(lines[k]), "line_head": bytes(lines[k][:24]), "line_tail": bytes(lines[k][-24:])})
+                continue
+            if len(set(arrived)) != len(arrived):
+                ctx.violation(f"client/congested-writes/duplicated/{role}", "a message arrived more than once", w2)
+                continue
+            if any([i for i in arrived if i % nw == wi] != sorted(i for i in arrived if i % nw == wi) for wi in range(nw)):
+                ctx.violation(f"client/congested-writes/reordered/{role}", "messages written one after the other by one task arrived in another order", {**w2, "arrived": arrived[:40]})
+                continue
+            missing = sorted(set(out["returned"]) - set(arrived))  # type: ignore[arg-type]
+            if missing:
+                ctx.violation(f"client/congested-writes/lost/{role}", "messages whose write() returned before close() did not reach the peer before the stream ended",
+                              {**w2, "missing": missing[:20]})
+
+    def check_late_server(self, kind: str, conns: list[dict[str, Any]], delays: list[Any]) -> None:
+        """pipelined bursts whose replies are collected late: every request reaches the ECU and every reply comes back, in order, on its own connection"""
+        ctx = self.ctx
+        w = {"family": "replies-collected-late", "server_kind": kind, "delays": delays, "connections": conns}
+        ctx.case(("replies-collected-late", kind, h(conns), tuple(delays)), nontrivial=True)
+        res = self.run(late_server_case(kind, conns, delays), w, "server-loop/replies-collected-late")
+        if res is None:
+            return
+        ctx.reach("server.late.cases")
+        ctx.reach(f"server.late.kind.{kind}")
+        if len(conns) > 1:
+            ctx.reach("server.late.two-connections")
+        for ci, (sl, out) in enumerate(zip(conns, res)):
+            reqs = late_requests(sl["mseed"], sl["profile"])
+            reply = reply_amplified if sl["profile"] == "amplified" else reply_for
+            want = b"".join(hexlify(x) + b"\n" for x in map(reply, reqs) if x is not None)
+            ctx.reach("server.late.connections")
+            ctx.reach("server.requests", len(out["seen"]))
+            if out["backed_up"] >= 65536:
+                ctx.reach("server.late.replies-backed-up-when-tester-reads")
+                ctx.reach("server.late.backed-up-for." + ("<=1s" if sl["stall"] <= 1 else "1-5s" if sl["stall"] <= 5 else ">5s"))
+            state = "replies-backed-up" if out["backed_up"] >= 65536 else "replies-not-backed-up"
+            w2 = {**w, "connection": ci, "requests": f"{len(reqs)} requests, lengths {[len(m) for m in reqs][:12]}", "handed_to_ecu": len(out["seen"]),
+                  "reply_bytes_due": len(want), "reply_bytes_got": len(out["got"]), "write_buffer_when_tester_starts_reading": out["backed_up"], "tester_saw": out["end"],
+                  "loop_ended_before_tester_read": out.get("loop_ended_before_tester_read"), "loop_ended_after_eof": out["loop_ended"], "exc": out["exc"]}
+            if out["seen"] != reqs:
+                how = "missing" if out["seen"] == reqs[: len(out["seen"])] else "differ"
+                ctx.violation(f"server-loop/replies-collected-late/requests-{how}/{state}", "a tester sent its burst and collected the replies later: the requests handed to the ECU "
+                              "are not the requests of the burst", w2)
+                continue
+            if out["got"] != want:
+                ctx.violation(f"server-loop/replies-collected-late/replies-differ/{state}", "a tester sent its burst and collected the replies later: the reply lines it got are not one "
+                              "line per answered request, in order", w2)
+                continue
+            if out["loop_ended"] is False:
+                ctx.violation(f"server-loop/replies-collected-late/does-not-end-at-eof/{state}", "the server loop did not end after the tester had ended its stream", w2)
 
     def check_server_group(self, kind: str, chains: list[list[dict[str, Any]]], delays: list[Any]) -> None:
         """one server transport object, several tester connections at the same time and one after the other; every connection is judged on
@@ -1105,7 +1570,7 @@ def h(spec: Any) -> str:
     return hashlib.blake2b(repr(spec).encode(), digest_size=8).hexdigest()
 
 
-def run_groups(mon: Mon, rng: random.Random, i: int, kind: str) -> None:
+def run_groups(mon: Mon, rng: random.Random, i: int, kind: str, rng7: random.Random) -> None:
     """round 5 dimension: no object is alone in its event loop, and objects get successors; round 6: reads given up from outside, written-then-closed"""
     kinds = ("tcp-lines", "unix-lines")
     slots = []
@@ -1114,6 +1579,10 @@ def run_groups(mon: Mon, rng: random.Random, i: int, kind: str) -> None:
         if rng.random() < 0.6:
             gens.append(gen_generation(rng, ["eof", "eof", "eof-mid"]))
         slots.append({"kind": kind if s == 0 or rng.random() < 0.5 else rng.choice(kinds), "gens": gens})
+    for sl in slots:
+        for g in sl["gens"]:
+            if rng7.random() < 0.5:
+                g["poll"] = list(rng7.choice(POLLS))  # round 7: this use polls before every ordinary read
     mon.check_companions(slots)
     if i % 2 == 0:
         chains = []
@@ -1123,6 +1592,11 @@ def run_groups(mon: Mon, rng: random.Random, i: int, kind: str) -> None:
     if i % 8 == 3:
         # round 6: the last use of an object (write ... write, close) with a peer that is behind
         mon.check_flush([gen_flush_slot(rng, kinds[(i // 8) % 2])] + ([gen_flush_slot(rng, rng.choice(kinds))] if rng.random() < 0.4 else []))
+    if i % 8 == 5:
+        # round 7: the object goes on being used while its connection is congested
+        mon.check_congested([gen_congested_slot(rng7, kinds[(i // 8) % 2])] + ([gen_congested_slot(rng7, rng7.choice(kinds))] if rng7.random() < 0.3 else []))
+    if i % 8 == 7:
+        mon.check_late_server(kinds[(i // 8) % 2], [gen_late_conn(rng7) for _ in range(rng7.choice([1, 2]))], rng7.choice([[0], ["yield"], [0, "yield", 0.002]]))
     if i % 16 == 0:
         chains3 = [[gen_script(rng, True)] + ([gen_script(rng, rng.random() < 0.5)] if rng.random() < 0.7 else []), [gen_script(rng, True)]]
         if rng.random() < 0.3:
@@ -1136,6 +1610,7 @@ def run(ctx: Any, params: dict[str, Any]) -> None:
     vtime.quiet_logging()
     rng = ctx.rng
     rng5 = random.Random(f"C19-groups/{ctx.seed}/{ctx.shard_index}")  # own stream: the cases of the older families stay what they were
+    rng7 = random.Random(f"C19-round7/{ctx.seed}/{ctx.shard_index}")  # round 7 dimensions, again on their own stream
     mon = Mon(ctx)
     for i in range(params["n"]):
         kind = ("tcp-lines", "unix-lines")[i % 2]
@@ -1154,6 +1629,12 @@ def run(ctx: Any, params: dict[str, Any]) -> None:
                 for p in range(0, len(ln)):
                     mon.check_timeout(kind, msgs, li, p)
                     mon.check_timeout(kind, msgs, li, p, GIVEUPS[1 + (i // 6 + li + p) % 3], (None, 30.0)[(i // 6 + p // 3) % 2])
+            # round 7: polling reads while complete lines wait in the buffer (every way x one line / the whole burst buffered x with / without a partial next line)
+            for pi, poll in enumerate(POLLS):
+                for upto in sorted({1, len(msgs)}):
+                    mon.check_poll(kind, msgs, upto, 0, poll)
+                    if upto < len(msgs):
+                        mon.check_poll(kind, msgs, upto, 1 + (i // 6 + pi) % (len(lines[upto]) - 1), poll)
         # longer sequences: multi-splits, byte-by-byte, coalesced
         msgs = gen_messages(rng, short=False)
         stream = encode(msgs)
@@ -1171,7 +1652,7 @@ def run(ctx: Any, params: dict[str, Any]) -> None:
             mon.check_connect_path(kind, [rng.randbytes(n) for n in rng.sample([1, 2, 255, 2047, 2048, 2049, 3000, 4094, 4095], 4)] + msgs[:3])
         mon.check_server(msgs, plans[1], rng.choice([None, None, rng.randrange(len(stream) + 1)]))
         mon.check_server(msgs, [], rng.choice([None, None, rng.randrange(len(stream) + 1)]), eof_with_data=True)
-        run_groups(mon, rng5, i, kind)
+        run_groups(mon, rng5, i, kind, rng7)
         if i % 20 == 0:
             ctx.sample({"kind": kind, "messages": [m for m in msgs[:4]], "cuts": plans[1][:8]})
         if ctx.out_of_time():
@@ -1207,6 +1688,12 @@ def replay(ctx: Any, witness: dict[str, Any]) -> None:
             if fam == "written-then-closed":
                 mon.check_flush(witness["senders"])
                 return
+            if fam == "congested-writes":
+                mon.check_congested(witness["senders"])
+                return
+            if fam == "replies-collected-late":
+                mon.check_late_server(witness["server_kind"], witness["connections"], witness["delays"])
+                return
             if fam == "server-group" and all(isinstance(g["msgs"], list) for ch in witness["chains"] for g in ch):
                 mon.check_server_group(witness["server_kind"], dec(witness["chains"]), witness["delays"])
                 return
@@ -1219,7 +1706,10 @@ def replay(ctx: Any, witness: dict[str, Any]) -> None:
         print("witness carries only a summary of a long sequence; re-run the tier with the recorded seed")
         return
     msgs = [ux(m) for m in msgs]
-    if "line" in witness:
+    if "poll_case" in witness:
+        pc = witness["poll_case"]
+        mon.check_poll(witness["kind"], msgs, pc["lines_buffered"], pc["extra_bytes"], tuple(pc["poll"]))
+    elif "line" in witness:
         mon.check_timeout(witness["kind"], msgs, witness["line"], witness["prefix"], witness.get("how", "param"), witness.get("inner"))
     elif "kind" in witness:
         mon.check_read(witness["kind"], msgs, witness.get("cuts", []), witness.get("gap", 0), witness.get("eof_at"))
